@@ -246,7 +246,10 @@ def run_case(case):
 
     obs = scenario.run_scenario(build(case), inspect=inspect)
     gc.collect()
-    if obs.outcome not in ("ok", "deadlock", "budget"):
+    if common.frozen_violation(obs.world):
+        # one session's activity froze the loop for all of them
+        viol.append(common.frozen_violation(obs.world))
+    elif obs.outcome not in ("ok", "deadlock", "budget"):
         raise common.HarnessError(f"scenario failed: {obs.outcome}: {obs.error!r}")
     if obs.outcome == "deadlock":
         viol.append({"clause": "hang", "subject": "deadlock", "detail": "simulation deadlocked"})
